@@ -226,6 +226,7 @@ class KafkaClient(object):
         self._disconnect_on_timeout = disconnect_on_timeout
         self._brokers = {}  # Broker-NodeID -> BrokerMetadata
         self._closing = False  # Are we shutting down/shutdown?
+        self._bootstrapping = set()  # Deferreds of bootstrap requests in progress
         self.update_cluster_hosts(hosts)  # Store hosts and mark for lookup
         if reactor is None:
             from twisted.internet import reactor
@@ -384,6 +385,9 @@ class KafkaClient(object):
         # Close down any clients we have
         brokerclients, self.clients = self.clients, None
         self._close_brokerclients(brokerclients.values())
+        # Abort requests in progress on ephemeral bootstrap connections
+        for d in list(self._bootstrapping):
+            d.cancel()
         # clean up other outstanding operations
         self.reset_all_metadata()
         return self.close_dlist or defer.succeed(None)
@@ -1141,6 +1145,10 @@ class KafkaClient(object):
                 resp = yield d
                 returnValue(resp)
             except KafkaError as e:
+                if self._closing:
+                    # close() failed the request: no other broker or bootstrap host may be tried,
+                    # and (as close() documents) the operation in progress ends as cancelled.
+                    raise CancelledError(message="{} has been closed".format(self)) from e
                 log.warning(
                     ("Will try next server after %s" " failed against server %s:%i. Error: %s"),
                     _ReprRequest(request),
@@ -1154,8 +1162,23 @@ class KafkaClient(object):
         # boostrapping.
         returnValue((yield self._send_bootstrap_request(request)))
 
-    @inlineCallbacks
     def _send_bootstrap_request(self, request):
+        """
+        Make a request using an ephemeral broker connection (see
+        :meth:`_do_send_bootstrap_request()`), keeping track of it so that
+        :meth:`close()` can abort it.
+        """
+        d = self._do_send_bootstrap_request(request)
+        self._bootstrapping.add(d)
+
+        def done(result):
+            self._bootstrapping.discard(d)
+            return result
+
+        return d.addBoth(done)
+
+    @inlineCallbacks
+    def _do_send_bootstrap_request(self, request):
         """Make a request using an ephemeral broker connection
 
         This routine is used to make broker-unaware requests to get the initial
@@ -1186,6 +1209,8 @@ class KafkaClient(object):
         hostports = list(self._bootstrap_hosts)
         random.shuffle(hostports)
         for host, port in hostports:
+            if self._closing:
+                raise ClientError("Cannot send request {}: {} has been closed".format(_ReprRequest(request), self))
             ep = self._endpoint_factory(self.reactor, host, port)
             try:
                 protocol = yield ep.connect(_bootstrapFactory)
